@@ -1001,6 +1001,9 @@ class Model:
         rrn = names.rr_name(op['n'], op['rsz'] if 'rsz' in op else op.get('sz', 0) % 3, op.get('lead', 0), op.get('salt', 0))     # (`rsz`: also names that need a continuation area)
         if '/' + name in self.t['iso']:
             raise Skip('exists')
+        if op.get('badrr'):
+            # a Rock Ridge name that no other call would take (empty, or with a slash): must be refused here as well
+            return Call('set_relocated_name', {'name': name, 'rr_name': ['a/b', '', '/x'][op['badrr'] % 3]}, lambda: None, note=('must-refuse', 'illegal-rr-name'))
 
         def effect():
             self.reloc = (name, rrn)
